@@ -19,7 +19,10 @@ RULE = (
     "parse_schema of a shared raw dict, parse_schema of a parsed dict into a local table, validate, schemaless write with "
     "multi-byte varints, container write, container read, schemaless read with a reader schema (nested records), "
     "schemaless read, container/schemaless reads of two files whose schemas define the same type names differently; all unordered "
-    "pairs incl. self-pairs (quick: the twin-file reads only as the three a-versus-b pairs). Oracle: each thread's bytes/value/exception equal its solo "
+    "pairs incl. self-pairs (quick: the twin-file reads, JSON on a recursive record, reads of few/many distinct strings and "
+    "fingerprints only in selected pairs). Cold-start units: every execution begins with a freshly imported library and the "
+    "single preemption is placed at the 1st, 2nd and last visit of every source line (first-call initialisation races). The same "
+    "location-bounded placement replaces 'every point' for pairs longer than 1600 (thorough: 6000) scheduling points. Oracle: each thread's bytes/value/exception equal its solo "
     "result. states = distinct (pair, schedule) executions; transitions = scheduling points executed."
 )
 ASSUMPTIONS = [
@@ -66,6 +69,7 @@ def make_ctx(fa):
     c["rec_reader"] = fa.parse_schema(copy.deepcopy(REC_READER))
     c["raw"] = copy.deepcopy(REC)
     c["small"] = fa.parse_schema(copy.deepcopy(SMALL))
+    c["node"] = fa.parse_schema(copy.deepcopy(NODE))
     c["dec3"] = fa.parse_schema(copy.deepcopy(DEC3))
     c["dec12"] = fa.parse_schema(copy.deepcopy(DEC12))
     c["fixdec"] = fa.parse_schema(copy.deepcopy(FIXDEC))
@@ -90,6 +94,8 @@ def const(fa):
         fo = io.BytesIO()
         fa.writer(fo, SMALL, [SDATUM], sync_marker=b"S" * 16)
         _CONST["file"] = fo.getvalue()
+        _CONST["few"] = _sl_bytes(fa, {"type": "array", "items": "string"}, ["alpha", "beta", "alpha"])
+        _CONST["many"] = _sl_bytes(fa, {"type": "array", "items": "string"}, ["s%03d" % i for i in range(262)])
         for nm, sch in (("twin_a", TWIN_A), ("twin_b", TWIN_B)):
             fo = io.BytesIO()
             fa.writer(fo, sch, [TW_DATUM], sync_marker=b"T" * 16)
@@ -175,6 +181,32 @@ def op_twin_b_sl_read(fa, c, k):
     return fa.schemaless_reader(io.BytesIO(k["twin_b_sl"]), copy.deepcopy(TWIN_B))
 
 
+NODE = {"type": "record", "name": "Node", "namespace": "c18", "fields": [{"name": "value", "type": "int"}, {"name": "next", "type": ["null", "Node"], "default": None}]}
+CHAIN = {"value": 1, "next": {"value": 2, "next": None}}
+
+
+def op_json_write_node(fa, c, k):
+    fo = io.StringIO()
+    fa.json_writer(fo, c["node"], [CHAIN, {"value": 3, "next": None}])
+    return fo.getvalue()
+
+
+def op_json_read_node(fa, c, k):
+    return list(fa.json_reader(io.StringIO('{"value": 1, "next": {"c18.Node": {"value": 2, "next": null}}}'), c["node"]))
+
+
+def op_few_strings(fa, c, k):
+    return [fa.schemaless_reader(io.BytesIO(k["few"]), {"type": "array", "items": "string"}) for _ in range(3)]
+
+
+def op_many_strings(fa, c, k):
+    return fa.schemaless_reader(io.BytesIO(k["many"]), {"type": "array", "items": "string"})
+
+
+def op_fingerprint(fa, c, k):
+    return [fa.schema.fingerprint(t, "CRC-64-AVRO") for t in ('"int"', "é")] + [fa.schema.fingerprint('"int"', "MD5")]
+
+
 def op_sl_read_resolve(fa, c, k):
     return fa.schemaless_reader(io.BytesIO(k["rec"]), c["rec"], c["rec_reader"])
 
@@ -189,6 +221,8 @@ OPS = [
     ("parse_parsed", op_parse_parsed), ("validate", op_validate), ("sl_write", op_sl_write), ("sl_write2", op_sl_write2),
     ("cont_write", op_cont_write), ("cont_read", op_cont_read), ("sl_read_resolve", op_sl_read_resolve), ("sl_read", op_sl_read),
     ("twin_a_read", op_twin_a_read), ("twin_b_read", op_twin_b_read), ("twin_a_sl_read", op_twin_a_sl_read), ("twin_b_sl_read", op_twin_b_sl_read),
+    ("json_write_node", op_json_write_node), ("json_read_node", op_json_read_node), ("few_strings", op_few_strings), ("many_strings", op_many_strings),
+    ("fingerprint", op_fingerprint),
 ]
 CHUNKS = 16
 OPCODE_FILES = ("_logical_readers_py.py", "_logical_writers_py.py", "json_decoder.py", "parser.py", "binary_encoder.py")
@@ -196,14 +230,29 @@ OPCODE_FILES = ("_logical_readers_py.py", "_logical_writers_py.py", "json_decode
 
 def units(tier):
     idx = range(len(OPS))
-    twins = set(range(14, 18))
+    special = set(range(14, 23))
     us = [("pair", a, b) for a, b in itertools.combinations_with_replacement(idx, 2)
-          if tier == "thorough" or not ({a, b} & twins) or (a, b) in ((14, 15), (16, 17), (14, 17))]
+          if (tier == "thorough" and 21 not in (a, b) and 22 not in (a, b)) or not ({a, b} & special)
+          or (a, b) in ((14, 15), (16, 17), (14, 17), (18, 18), (18, 19), (19, 19), (20, 21), (20, 20), (22, 22), (5, 22))]
     us = [(u, c) for u in us for c in range(CHUNKS)]
+    # cold start: every execution begins with a freshly imported library (first-call initialisation races);
+    # deviations at the 1st, 2nd and last visit of every source line of the default execution
+    cold = [(22, 22), (8, 8)] if tier == "quick" else [(22, 22), (5, 5), (8, 8), (4, 4), (3, 3), (0, 1), (18, 18), (10, 11), (12, 12), (7, 7), (2, 2)]
+    us += [(("cold", a, b), 0) for a, b in cold]
     if tier == "thorough":
         us += [(u, 0) for u in [("triple", 0, 1, 2), ("triple", 0, 1, 1), ("triple", 8, 9, 10), ("triple", 3, 3, 4), ("triple", 5, 6, 7), ("triple", 12, 12, 13)]]
         us += [(("opcode", a, b), c) for a, b in [(0, 1), (0, 0), (1, 1), (2, 2), (3, 3), (3, 4), (8, 9), (8, 8), (5, 5), (5, 6)] for c in range(CHUNKS)]
     return us
+
+
+def priority(unit_chunk):
+    unit, chunk = unit_chunk
+    if unit[0] == "cold":
+        return 3
+    if unit[0] in ("triple", "opcode"):
+        return 2
+    big = {3, 4, 10, 11, 14, 15, 18, 19, 20, 21, 22}
+    return 1 if (set(unit[1:]) & big) else 0
 
 
 def solo(fa, opi):
@@ -219,17 +268,29 @@ def run_unit(unit_chunk, tier):
 
     res = UnitResult()
     unit, chunk = unit_chunk
-    nchunks = 1 if unit[0] == "triple" else CHUNKS
+    nchunks = 1 if unit[0] in ("triple", "cold") else CHUNKS
     kind, ids = unit[0], unit[1:]
     k = const(fa)
     solos = [solo(fa, i) for i in ids]
     solo_keys = [key(s) for s in solos]
     gran = "opcode" if kind == "opcode" else "line"
-    runner = sched.Runner(len(ids), gran, OPCODE_FILES)
+    runner = sched.Runner(len(ids), gran, OPCODE_FILES, record_labels=(kind == "cold"))
 
     def make_bodies():
         c = make_ctx(fa)
         return [(lambda f=OPS[i][1]: f(fa, c, k)) for i in ids]
+
+    if kind == "cold":
+        from .c17 import purge
+        from ..harness import setup_fastavro
+
+        def make_bodies():  # noqa: F811
+            purge()
+            fresh = setup_fastavro()
+            import fastavro.schema, fastavro.validation  # noqa
+
+            c = make_ctx(fresh)
+            return [(lambda f=OPS[i][1]: f(fresh, c, k)) for i in ids]
 
     # warm-up: traced solo-ish runs until the step count is stable (CPython installs
     # opcode instrumentation lazily on the first traced run of a code object)
@@ -248,6 +309,8 @@ def run_unit(unit_chunk, tier):
         bound = 2 if (tier == "thorough" or prod <= 15000) else 1
         if tier == "thorough" and prod <= 15000:
             bound = 3
+    elif kind == "cold":
+        bound = 1
     elif kind == "triple":
         bound = 1 if prod > 300 ** 3 else 2
     else:
@@ -272,7 +335,27 @@ def run_unit(unit_chunk, tier):
                                   f"preemption points {sw} of {len(ex.choices)} | {info0}", dict(info0, schedule=ex.choices)))
 
     cap = 60000 if tier == "quick" else 400000
-    n, capped = sched.explore(runner, make_bodies, bound, on_ex, max_executions=cap, chunk=(chunk, nchunks))
+    sparse = kind == "cold" or sum(solo_steps) > (1600 if tier == "quick" else 6000)
+    if sparse and kind != "cold":
+        # very long operations (loops over hundreds of items): place the preemption at the 1st, 2nd and last
+        # visit of every source line instead of at every visit
+        runner.record_labels = True
+        bound = 1
+        info0["bound"] = 1
+        info0["sparse"] = True
+        res.stats["sparse_units"] += 1
+    if sparse:
+        if chunk % 4 != 0 and kind != "cold":
+            # few schedules: four chunks are enough
+            res.states = 0
+            res.stats["chunks_folded_into_others"] += 1
+            return res
+        n, capped = sched.explore(runner, make_bodies, bound, on_ex, max_executions=cap, chunk=(chunk // 4, max(1, nchunks // 4)) if kind != "cold" else (0, 1),
+                                  eligible=lambda r: sched.visits_first_second_last(r.labels))
+        if kind == "cold":
+            res.stats["cold_start_units"] += 1
+    else:
+        n, capped = sched.explore(runner, make_bodies, bound, on_ex, max_executions=cap, chunk=(chunk, nchunks))
     if capped:
         res.caps.append(f"{names}: stopped at {cap} executions within preemption bound {bound}")
     res.states = n
